@@ -264,6 +264,8 @@ def gen_refusal_history(rng, maxlen, alg=None):
                 out.append("lindep %d" % rng.randint(1, n))
             elif r < 0.94:
                 out.append("qbb %d %d" % (rng.randint(1, m), rng.randint(1, m)))
+            elif alg == "env":                         # AdjEnvelope has no q_bx; its own extra query is q0_xx
+                out.append("q0xx %d %d" % (rng.randint(1, n), rng.randint(1, n)))
             else:
                 out.append("qbx %d %d" % (rng.randint(1, m), rng.randint(1, n)))
         return out
